@@ -213,6 +213,8 @@ func (se *SessionExecutor) handleStmtExecute(reqCtx *util.RequestContext, data [
 		return nil, mysql.NewDefaultError(mysql.ErrUnknownStmtHandler,
 			strconv.FormatUint(uint64(id), 10), "stmt_execute")
 	}
+	// whatever happens to this execution, no bound value or long data may survive it
+	defer s.ResetParams()
 
 	flag := data[pos] & mysql.CursorTypeReadOnly
 	pos++
@@ -267,7 +269,6 @@ func (se *SessionExecutor) handleStmtExecute(reqCtx *util.RequestContext, data [
 	} else {
 		executeSQL = s.sql
 	}
-	defer s.ResetParams()
 	// execute sql using ComQuery
 	return se.handleQuery(reqCtx, executeSQL)
 }
